@@ -961,6 +961,46 @@ theorem C08_fnless_packing (op : Op) (hf : op.Fnless) (hs : SelfAlone op) (s : N
   ⟨callFn_fnless op hf s ins, rfl, normalizeOutputs_eq op _,
    by rw [getOutputs_normOuts op hs, write_tuple]⟩
 
+/-- **C08_result_packing.**  The packing conventions for the result `v` of a USER function, written out (`SelfAlone`;
+`base`: the record for `assign`, `NullMap()` otherwise; `k` a plain key, not dict-form, for the whole-tuple case):
+1. a result that is not a tuple is ONE output: with one output key it is stored, as it is, under that key;
+2. a tuple result of length ≥ 2 with ONE output key: the key receives the whole tuple;
+3. a tuple result with as many output keys (≥ 2) as elements is unzipped: element i goes to key i;
+4. a tuple result of length 1 with one output key is ONE output: the ELEMENT is stored (a function that wants to
+   store a 1-tuple has to return it wrapped — which is exactly what `_identity_fn` does with the selected values);
+5. an empty tuple result with at least one output key raises `ValueError` (`zip(strict=True)`). -/
+theorem C08_result_packing (op : Op) (hs : SelfAlone op) (base : Val) :
+    (∀ v k, (∀ xs, v ≠ .tuple xs) → op.outKeys = [k] →
+      getOutputs op base (normOuts op v) = Ref.routeAll base [k] [v]) ∧
+    (∀ a b rest k, op.outKeys = [.key k] →
+      getOutputs op base (normOuts op (.tuple (a :: b :: rest))) = Ref.route base (.key k) (.tuple (a :: b :: rest))) ∧
+    (∀ xs k k' ks, op.outKeys = k :: k' :: ks →
+      getOutputs op base (normOuts op (.tuple xs)) = Ref.routeAll base (k :: k' :: ks) xs) ∧
+    (∀ x k, op.outKeys = [k] →
+      getOutputs op base (normOuts op (.tuple [x])) = Ref.routeAll base [k] [x]) ∧
+    (∀ k ks, op.outKeys = k :: ks →
+      getOutputs op base (normOuts op (.tuple [])) = .error .value) := by
+  refine ⟨?_, ?_, ?_, ?_, ?_⟩
+  · intro v k hv hk
+    rw [getOutputs_normOuts op hs]
+    have ho : outputsOf v = [v] := by
+      unfold outputsOf; split
+      · exact absurd rfl (hv _)
+      · rfl
+    simp [Ref.write, hk, ho]
+  · intro a b rest k hk
+    rw [getOutputs_normOuts op hs]
+    simp [Ref.write, hk]
+  · intro xs k k' ks hk
+    rw [getOutputs_normOuts op hs]
+    simp [Ref.write, hk]
+  · intro x k hk
+    rw [getOutputs_normOuts op hs]
+    simp [Ref.write, hk]
+  · intro k ks hk
+    rw [getOutputs_normOuts op hs]
+    cases ks <;> simp [Ref.write, hk, Ref.routeAll]
+
 /-- **C08_fnless_readback.**  Read-back on dict records: routing the values `vals` to as many distinct plain
 names (onto a dict record — `assign` — or into a new record — `select` / `apply`) succeeds and yields a dict in
 which name i reads EXACTLY `vals[i]` (no hypothesis on the values: `vals[i]` may be a tuple of length 0 / 1 / n);
